@@ -40,7 +40,7 @@ def run_model(module: str, name: str, constants: dict, invariants: list[str], ma
 
 
 def validate(tmodule: str, traces: list[dict], *, tag: str, chunk: int = 2000,
-             timeout: int = 1800) -> list[dict]:
+             timeout: int = 1800, par: int = 4) -> list[dict]:
     """Validate recorded traces with TLC against spec/<tmodule>.tla (T_ByteWrap / T_TextWrap).
 
     Each trace is {"id", "events", "params"}; the verdict per trace is
@@ -74,6 +74,6 @@ def validate(tmodule: str, traces: list[dict], *, tag: str, chunk: int = 2000,
         f.unlink()
         return out
 
-    with ThreadPoolExecutor(max_workers=min(6, len(parts))) as ex:
+    with ThreadPoolExecutor(max_workers=min(par, len(parts))) as ex:
         res = list(ex.map(one, enumerate(parts)))
     return [v for part in res for v in part]
